@@ -369,6 +369,7 @@ def make_site_system(
     hi=11.0,
     tail_last_frame_hop=False,
     p_direct=0.3,
+    distinct_labels=False,
 ) -> SiteSystem:
     """Random margin-controlled site system (see module docstring)."""
     kind, rotated, m = geom.random_lattice(rng, kind, rotate, lo=lo, hi=hi)
@@ -385,6 +386,10 @@ def make_site_system(
     # non-contiguous label assignment, every label used at least once
     labels = [label_names[i % n_labels] for i in range(n_sites)]
     labels = list(rng.permutation(labels))
+    if distinct_labels:
+        # every site its own label, listed in sorted order (Li01, Li02, ...: a fully labelled crystallographic site list)
+        label_names = [f'Li{k + 1:02d}' for k in range(n_sites)]
+        labels = list(label_names)
     w = geom.perp_widths(m)
     rmax = min(1.2, 0.22 * w.min())
     if rmax < 0.3:
